@@ -7,15 +7,15 @@ from vf import env
 
 TEXT = {
     "C01": ("exploration", "runtime monitor on TokenizedMarkdown.transform: outcome + deterministic work count (sys.monitoring PY_START) under a step budget",
-            "Every parse in the frozen universes Z1-Z19 (quick: seed-chosen indices; thorough: all 3.72 M documents) must return tokens within K*(n+64)^2 counted function entries and within 20 s of process CPU time (work inside C extensions), and 51 scaling families must grow with exponent <= 2.3. Held on the documents explored; nothing is proved for documents outside the universes.", "4 C01"),
+            "Every parse in the frozen universes Z1-Z20 (quick: seed-chosen indices; thorough: all 3.72 M documents) must return tokens within K*(n+64)^2 counted function entries and within 20 s of process CPU time (work inside C extensions), and 51 scaling families must grow with exponent <= 2.3. Held on the documents explored; nothing is proved for documents outside the universes.", "4 C01"),
     "C02": ("exploration", "identity oracle regenerate(parse(d)) == d evaluated on every successful parse of the workload",
-            "Round-trip identity checked character for character on every explored document of Z1-Z19 and on every intermediate document the application parses while fixing (FX workload); exhaustive only over the frozen universes when the thorough tier runs.", "4 C02"),
+            "Round-trip identity checked character for character on every explored document of Z1-Z20 and on every intermediate document the application parses while fixing (FX workload); exhaustive only over the frozen universes when the thorough tier runs.", "4 C02"),
     "C03": ("exploration", "differential oracle: normalised HTML event stream vs vendored markdown-it-py (independent CommonMark implementation)",
             "Agreement with an independent implementation on every explored document on which the comparator does not abstain; inherits the reference's correctness outside the neutralised quirks.", "4 C03"),
     "C04": ("exploration", "independent stack automaton replayed over every token list the real parser returns",
-            "Nesting discipline checked on every explored parse of Z1-Z19 and on the internal parses of fix runs (FX workload); the tokens rules receive are identical objects (checked by C14).", "4 C04"),
+            "Nesting discipline checked on every explored parse of Z1-Z20 and on the internal parses of fix runs (FX workload); the tokens rules receive are identical objects (checked by C14).", "4 C04"),
     "C05": ("exploration", "position oracle (line exists, column in range, block order, opening text at the position) over every position-carrying token",
-            "Positions checked against the source text on every explored parse (Z1-Z19 incl. two generations of multi-line inline constructs and tab shapes, FX workload); text tokens by range only.", "4 C05"),
+            "Positions checked against the source text on every explored parse (Z1-Z20 incl. two generations of multi-line inline constructs and tab shapes, FX workload); text tokens by range only.", "4 C05"),
     "C06": ("exploration", "differential: real single-rule scans vs executable transcriptions of each rule's documented condition over an independent parse (three-valued)",
             "23 rules x their documented configuration values (incl. every ordering of MD013's three limits, MD012 maximum 0..3) on documents where both parsers agree; the oracle abstains where the rule's page is silent.", "4 C06"),
     "C07": ("exploration", "monitor on real scan runs: plugin errors, range / uniqueness / order of every report, repeat in the same and in a fresh process",
